@@ -352,6 +352,24 @@ class HamiltonianDisplacementMove(
     def __call__(self, context: HContextType) -> bool:
         return self.attempt_displacement(context)
 
+    def to_dict(self) -> dict[str, Any]:
+        """
+        Convert the `HamiltonianDisplacementMove` object to a dictionary. The
+        distribution is a callable and is not serialized.
+
+        Returns
+        -------
+        dict[str, Any]
+            A dictionary representation of the `HamiltonianDisplacementMove` object.
+        """
+        dictionary = super().to_dict()
+
+        # not a constructor argument of this move, restored as an attribute instead
+        apply_constraints = dictionary["kwargs"].pop("apply_constraints")
+        dictionary.setdefault("attributes", {})["apply_constraints"] = apply_constraints
+
+        return dictionary
+
     @property
     def default_operation(self) -> Integrator:
         """
